@@ -1014,7 +1014,7 @@ def known_findings(kf, violations, repo, tier):
 EXTRA = [policy, validate_assumed_purity]
 BOUNDED = ["assumed-contract-validation#fixtures-identical-across-fresh-processes: all supported fixtures of the repository plus the synthetic "
            "documents of replay/C06.py::synth_corpus (style names colliding under case/length/whitespace keys; image twins differing only in "
-           "their dimension bytes), two fresh processes (PYTHONHASHSEED 1 and 2, opposite corpus order), each document extracted twice with a "
+           "their dimension bytes), two fresh processes (PYTHONHASHSEED 1 and 2, opposite corpus order, different locale / time zone / working directory / environment), each document extracted twice with a "
            "path and twice without, every observer called and every handed-out stream read between two to_json() calls -- a bounded "
            "validation of the purity assumption, not counted as a proof of it"]
 
